@@ -48,8 +48,10 @@ Outcome(d, e, b) ==
     [] e = "dotref" -> Ref(d, bs, <<nA, nB>>)
     [] e = "macro" -> Eval(Macro("map", Lit(List(<<I(1), I(2)>>)), "x", Bin("+", X, Lit(I(1)))), env)
     [] e = "has" -> (IF IsBound(bs, <<nM>>) THEN Eval(Has(Var("m"), nF), env) ELSE Indef)
-    \* has(m.f) ? 10 / m.f : -1 -- an evaluation error on m = {f: 0}, a value on other maps; m unbound: only "same as alone"
-    [] e = "hasdiv" -> (IF IsBound(bs, <<nM>>) THEN Eval(CondE(Has(Var("m"), nF), Bin("/", Lit(I(10)), Sel(Var("m"), nF)), Lit(I(-1))), env) ELSE Indef)
+    \* has(m.f) ? 10 / m.f : -1 -- fails on m = {f: 0}, a value on other maps, and with m unbound it is still a value: the one kind of
+    \* expression for which "a failed call followed by a call without bindings" can show.  Its value is C09's business (has() under the
+    \* compiled runner is a recorded finding there); here the only demand is "the same as alone"
+    [] e = "hasdiv" -> Indef
     [] e = "sizeplain" -> I(5)                 \* the built-in: code points
     [] e = "sizeov" -> I(6)                    \* this program's own function
     [] e = "twiceplain" -> Err                 \* no such function in THIS program, whatever other programs were given
